@@ -97,11 +97,11 @@ def slices(tier):
     # every method x location x kind of the source (missing / file / directory), non-repeating and repeating consumer; stage-in, again
     S["single"] = slice_consts(m1=ALL_METHODS, l1=ALL_LOCS, lens=(1,), reps=(False, True), alt=("none", "file", "dir"), maxagain=1, maxevents=1)
     # two references staging the same name: who wins / which error; then stage-in again and a restart with / without restaging
-    coll_m, coll_l = ["copy", "link", "copyout", "extract"], ["in", "da", "pa", "qa", "pd", "qd", "pt", "sa"]
+    coll_m, coll_l = ["copy", "link", "copyout", "extract"], (["in"] if th else []) + ["da", "pa", "qa", "pd", "qd", "pt", "sa"]
     S["collide"] = slice_consts(m1=coll_m, l1=coll_l, m2=coll_m, l2=coll_l, lens=(2,), shape="collide", alt=("none",) if not th else ("none", "dir"),
                                 maxagain=1, maxrestart=1, maxevents=2 if th else 1, restages=(True, False))
     # two references staging different names: the order (direct first, :copyout last), the inputs list, tolerated missing sources
-    ord_m, ord_l = ["copy", "link", "ref", "copyout", "output"], ["da", "apd", "pa", "qd", "sa"]
+    ord_m, ord_l = ["copy", "link", "ref", "copyout", "output"], ["da", "apd", "pa", "qd", "sa"] if th else ["da", "pa", "qd", "sa"]
     S["order"] = slice_consts(m1=ord_m, l1=ord_l, m2=ord_m, l2=ord_l, lens=(2,), shape="distinct", reps=(False, True), alt=("none",),
                               maxrestart=1 if th else 0, maxevents=1 if th else 0, restages=(True,))
     # histories
@@ -109,7 +109,8 @@ def slices(tier):
     S["hist-file"] = slice_consts(m1=["copy", "link", "copyout"], l1=["pa", "da"], mutlocs=["pa", "da"], writes=["o", "a"], **ev)
     S["hist-dir"] = slice_consts(m1=["copy", "link"], l1=["pd", "apd"], mutlocs=["pd", "apd"], writes=["o", "d/a", "d/o"], **ev)
     S["hist-extract"] = slice_consts(m1=["extract"], l1=["pt"], m2=["copy", "link"], l2=["qa", "qd"], lens=(1, 2), mutlocs=["pt", "qa"], writes=["o", "a", "d/o"], **ev)
-    S["hist-skip"] = slice_consts(m1=["copy", "link", "ref"], l1=["sa"], m2=["copy", "link", "copyout"], l2=["pa", "da"], lens=(2,), alt=("none",),
+    S["hist-skip"] = slice_consts(m1=["copy", "link", "ref"] if th else ["copy", "ref"], l1=["sa"], m2=["copy", "link", "copyout"] if th else ["copy", "copyout"],
+                                  l2=["pa", "da"], lens=(2,), alt=("none",),
                                   reps=(False, True), mutlocs=["sa"], writes=["o", "a"], **dict(ev, maxevents=2 if not th else 3))
     S["hist-tree"] = slice_consts(m1=["copy", "link"], l1=["pp", "pl", "pm"], links=True, mutlocs=["pa", "qa"],
                                   writes=["o", "l", "p/a", "p/l", "p/m"] , **dict(ev, maxagain=0))
@@ -292,8 +293,7 @@ def klass(hd, labels, i):
             ctx.add("restaged")
         if l[0] == "again":
             ctx.add("again")
-    ms = "+".join(sorted({r["m"] for r in hd["refs"]}))
-    return "staging:%s:%s%s%s%s" % (ev, ms, ":repeating" if hd["rep"] else "", ":migrated" if hd["mig"] else "", (":" + "+".join(sorted(ctx))) if ctx else "")
+    return "staging:%s%s%s%s" % (ev, ":repeating" if hd["rep"] else "", ":migrated" if hd["mig"] else "", (":" + "+".join(sorted(ctx))) if ctx else "")
 
 
 def split(xs, n):
@@ -410,6 +410,7 @@ def _probe(args):
     # FixRestage: a link and a directory copy staged twice
     w = W.World(os.path.join(root, "p1"), {"refs": [{"m": "link", "l": "pa"}, {"m": "copy", "l": "pd"}], "rep": False, "mig": False})
     w.reset({"pa": {"k": "file", "c": 5}, "pd": {"k": "dir", "c": 6}})
+    out["created"] = dict(w.created)
     w.apply(("begin", "", "", 0))
     w.apply(("again", "", "", 0))
     a = w.res == "ok"
@@ -454,17 +455,28 @@ def run(tier, only=None):
     try:
         t0 = time.time()
         variant = probe_variant(chk)
+        chk.evaluated(("instance-creation",))
+        if variant["created"] != {"in": 1, "da": 2, "ap": 3, "app-is-link": True}:
+            chk.violation("instance:direct-sources-at-creation", "a new instance was created with the input file <dir>/user_input.txt:a (rename form), "
+                          "the package file data/a and the application dependency app.application; expected input/a = 1, data/a = 2, app/a = 3 through "
+                          "the link app; found %s" % variant["created"], {"kind": "instance"})
         chk.cov["variant_of_the_tree"] = {"FixSkip": variant["skip"], "FixRestage": variant["restage"]}
-        if not only:
-            model_check(chk, tier)
-        t1 = time.time()
-        hits = spec_to_code(chk, tier, variant, only)
+        dev = only is not None                     # development run: the named emission slices and / or "traces" only
+        sl = [x for x in (only or []) if x != "traces"]
+        from concurrent.futures import ThreadPoolExecutor
+        with ThreadPoolExecutor(max_workers=1) as bg:
+            # the design model is checked (TLC processes) while the behaviours are emitted and replayed
+            fut = bg.submit(model_check, chk, tier) if not dev else None
+            hits = spec_to_code(chk, tier, variant, sl or None) if (not dev or sl) else {}
+            t1 = time.time()
+            if fut is not None:
+                fut.result()
         t2 = time.time()
-        if not only:
-            from . import g07_traces
+        if not dev or "traces" in only:
+            from .. import g07_traces
             g07_traces.code_to_spec(chk, tier, variant, GEN, cfg)
         t3 = time.time()
-        chk.cov["phase_wall_s"] = dict(model=round(t1 - t0, 1), replay=round(t2 - t1, 1), traces=round(t3 - t2, 1))
+        chk.cov["phase_wall_s"] = dict(replay=round(t1 - t0, 1), model_after_replay=round(t2 - t1, 1), traces=round(t3 - t2, 1))
         chk.cov["finding_behaviours"] = hits
         chk.cov["rule"] = ("EVERY behaviour TLC enumerates for the emission slices (all single references: 6 methods x 14 locations x source missing / file / "
                            "directory x repeating or not; all colliding pairs and all non-colliding pairs over reduced alphabets; bounded histories of "
@@ -497,7 +509,7 @@ def replay(path):
     d = json.load(open(path))
     rp = d.get("replay") or {}
     if rp.get("kind") == "trace":
-        from . import g07_traces
+        from .. import g07_traces
         return g07_traces.replay(rp)
     print("re-run ./check G07: the behaviours are re-derived from the specification; recorded case:", json.dumps(rp)[:600])
     return run("quick")
